@@ -214,8 +214,12 @@ def run(ctx):
             s = {nme: sig(t, data2) for nme, t in st.tasks.items()}
             if a != s:
                 bad = [k for k in s if a.get(k) != s[k]] + [k for k in a if k not in s]
-                ctx.fail('a member chain of a MultiChain differs from the standalone chain of the same config', full_case, {'tasks': bad[:4]},
-                         known='K6' if k6_class(standalone) else ('K3' if k3_class(standalone, bad) else None))
+                # K6 shows in the INPUT TABLE of a shared object (re-resolved in another member's namespace, an optional input lost) — never in
+                # a key, a location or a parameter value: a difference there is not K6
+                only_inputs = all(k in a and k in s and a[k][:3] == s[k][:3] for k in bad)
+                ctx.fail('a member chain of a MultiChain differs from the standalone chain of the same config', full_case,
+                         {'tasks': bad[:4], 'differs_in': 'inputs' if only_inputs else 'key / location / parameters'},
+                         known='K6' if (k6_class(standalone) and only_inputs) else ('K3' if k3_class(standalone, bad) else None))
                 break
         # ---- oracle 2: one object iff same location
         loc = {}
